@@ -164,6 +164,44 @@ def doubling_any_unit(res):
     return res
 
 
+def kdg_wiring_unit(res):
+    """P: KernelDG.__init__ and get_loopcarried_dependencies (real code): the graph is create_DG(kernel, flag option), the
+    stored result is what check_for_loopcarried_dep returned for the SAME kernel object with the timeout and flag option handed on
+    unchanged, and the getter returns exactly that stored object (no recomputation, no copy that could drop entries)."""
+    ex = Engine([REPO + "/" + KDG])
+    flag, tmo = z3.Bool("flag_dependencies"), z3.Int("timeout")
+
+    def run():
+        log = []
+        kernel, dgm, result = [SObj("InstructionForm", tag=0)], SObj("DiGraph"), {"1": "entry"}
+        ex.abstract["create_DG"] = lambda ex_, so, a, kw: (log.append(("create_DG", a, kw)), dgm)[1]
+        ex.abstract["check_for_loopcarried_dep"] = lambda ex_, so, a, kw: (log.append(("lcd", a, kw)), result)[1]
+        ex.abstract["nx.algorithms.dag.is_directed_acyclic_graph"] = lambda ex_, so, a, kw: (log.append(("dag?", a, kw)), True)[1]
+        o = ex.instantiate("KernelDG", [kernel, SObj("Parser"), SObj("MachineModel"), SObj("ArchSemantics")], kw=dict(timeout=SNum(tmo, True), flag_dependencies=SBool(flag)))
+        ex.extra.update(log=log, kernel=kernel, dgm=dgm, result=result, o=o)
+        return ex.call_method("KernelDG", "get_loopcarried_dependencies", o, [])
+
+    paths = ex.explore(run, [])
+
+    def post(v, p):
+        log, kernel, dgm, result, o = (p.extra[k] for k in ("log", "kernel", "dgm", "result", "o"))
+        c = [e for e in log if e[0] == "create_DG"]
+        l_ = [e for e in log if e[0] == "lcd"]
+        if len(c) != 1 or len(l_) != 1 or v is not result or o.fields.get("dg") is not dgm or o.fields.get("kernel") is not kernel:
+            return False
+        argl = lambda e, i, name: e[1][i] if len(e[1]) > i else e[2].get(name)
+        if argl(c[0], 0, "kernel") is not kernel or argl(l_[0], 0, "kernel") is not kernel:
+            return False
+        dag = [e for e in log if e[0] == "dag?"]
+        if any(e[1][0] is not dgm for e in dag):
+            return False
+        return z3.And(bool_term(argl(c[0], 1, "flag_dependencies")) == flag, bool_term(argl(l_[0], 2, "flag_dependencies")) == flag,
+                      num_term(argl(l_[0], 1, "timeout"))[0] == tmo)
+
+    res.add_paths(paths, post, kind="KernelDG/wiring")
+    return res
+
+
 def lcd_column_unit(res):
     """Pb: Frontend.full_analysis_dict, LCD part (real code): for kernels of 3 lines whose lines carry an ARBITRARY previous
     LatencyLCD mark (any earlier report, any history) and for every result of the LCD search with 0, 1 or 2 cycles (symbolic
@@ -275,6 +313,7 @@ def units(tier):
         Unit("C05/check_for_loopcarried_dep/partition(kernels >= 50 lines)", partition_unit, "P", [(KDG, "KernelDG.check_for_loopcarried_dep")]),
         Unit("C05/_extend_path", extend_path_unit, "P", [(KDG, "KernelDG._extend_path")]),
         bounded_unit("C05/parallel-search-equals-sequential", "c16_parallel", [(KDG, "KernelDG.check_for_loopcarried_dep")], timeout=1800),
+        Unit("C05/KernelDG.__init__+get_loopcarried_dependencies(wiring)", kdg_wiring_unit, "P", [(KDG, "KernelDG.__init__"), (KDG, "KernelDG.get_loopcarried_dependencies")]),
         Unit("C05/check_for_loopcarried_dep/doubling(any kernel length)", doubling_any_unit, "P", [(KDG, "KernelDG.check_for_loopcarried_dep")]),
         Unit("C05/check_for_loopcarried_dep/doubling", doubling_unit, "Pb", [(KDG, "KernelDG.check_for_loopcarried_dep")]),
         bounded_unit("C05/pipeline-vs-cycle-oracle", "dg_oracle", [(KDG, "KernelDG.check_for_loopcarried_dep"), (KDG, "KernelDG._extend_path"),
